@@ -208,8 +208,15 @@ def oracleExpect (c : CaseIn) (chunks : List Bytes) (rkv : KV) : Option String :
     | some want =>
       let g := ";".intercalate xevs
       if "=" ++ g = want then none else some (c.camp ++ ":xev:got=" ++ g ++ ":want" ++ want)
+  let kevs := ((get rkv "ev").splitOn ";").filter (fun e => e.startsWith "k+" ∨ e.startsWith "k." ∨ e.startsWith "k-")
+  let chkK : Option String := match c.kv.lookup "xk" with
+    | none => none
+    | some want =>
+      let g := ";".intercalate kevs
+      if "=" ++ g = want then none else some (c.camp ++ ":xk:got=" ++ g ++ ":want" ++ want)
   (chk "xp" afterZ).orElse fun _ =>
   chkEv.orElse fun _ =>
+  chkK.orElse fun _ =>
   (chk "xpre" notes).orElse fun _ =>
   match c.kv.lookup "xend" with
   | none => none
